@@ -30,6 +30,7 @@ theorem Main.consume {s : St} (m : Main s) (n : Nat) (hn : s.consumed + n ≤ s.
   · intro h; cases h
   · exact m.sendV
   · exact m.taken_le
+  · exact m.pipeEnded
 
 /-- the producer appends k bytes -/
 theorem Main.produce {s : St} (m : Main s) (k : Nat) (hk : s.put + k ≤ s.v.length) :
@@ -60,6 +61,7 @@ theorem Main.produce {s : St} (m : Main s) (k : Nat) (hk : s.put + k ≤ s.v.len
   · exact m.byp
   · exact m.sendV
   · exact m.taken_le
+  · exact m.pipeEnded
 
 theorem Main.prodEnd {s : St} (m : Main s) (h : s.put = s.v.length) : Main { s with prodEnded := true } := by
   constructor
@@ -76,6 +78,7 @@ theorem Main.prodEnd {s : St} (m : Main s) (h : s.put = s.v.length) : Main { s w
   · exact m.byp
   · exact m.sendV
   · exact m.taken_le
+  · exact m.pipeEnded
 
 /-- echoMore(): `size` bytes are copied from the virgin pipe buffer into the adapted pipe -/
 theorem Main.echo {s : St} (m : Main s) (size : Nat) (hv : s.sending = .virgin) (hc : s.consumed ≤ s.vSending.start)
@@ -132,6 +135,7 @@ theorem Main.echo {s : St} (m : Main s) (size : Nat) (hv : s.sending = .virgin) 
   · exact m.sendV
   · show s.outTaken ≤ (s.out ++ _).length
     rw [List.length_append]; have := m.taken_le; omega
+  · exact m.pipeEnded
 
 /-- stopSending(): the adapted pipe ends (nicely only when `EndOk`), sending is over -/
 theorem Main.endPipe {s : St} (m : Main s) (o : OutSt) (ho : s.outSt ≠ .noPipe) (hok : o = .endedOk → EndOk s) (hn : o ≠ .noPipe) :
@@ -150,6 +154,7 @@ theorem Main.endPipe {s : St} (m : Main s) (o : OutSt) (ho : s.outSt ≠ .noPipe
   · exact m.byp
   · intro h; cases h
   · exact m.taken_le
+  · intro _; rfl
 
 theorem Main.sendingDone {s : St} (m : Main s) : Main { s with sending := .done } := by
   constructor
@@ -166,6 +171,7 @@ theorem Main.sendingDone {s : St} (m : Main s) : Main { s with sending := .done 
   · exact m.byp
   · intro h; cases h
   · exact m.taken_le
+  · exact m.pipeEnded
 
 theorem Main.sendingAdapted {s : St} (m : Main s) (p : Parsing) (r : Bool) : Main { s with parsing := p, sending := .adapted, readyForUob := r } := by
   constructor
@@ -182,6 +188,7 @@ theorem Main.sendingAdapted {s : St} (m : Main s) (p : Parsing) (r : Bool) : Mai
   · exact m.byp
   · intro h; cases h
   · exact m.taken_le
+  · exact m.pipeEnded
 
 /-- parseBody(): n pending adapted bytes enter the adapted pipe (and the bypass flags go off with the first byte) -/
 theorem Main.moveBody {s : St} (m : Main s) (n : Nat) (b1 b2 b3 : Bool) (hh : s.head = .adapted) (hu : s.uob = none) (ho : s.outSt ≠ .noPipe)
@@ -220,5 +227,235 @@ theorem Main.moveBody {s : St} (m : Main s) (n : Nat) (b1 b2 b3 : Bool) (hh : s.
   · exact m.sendV
   · show s.outTaken ≤ (s.out ++ _).length
     rw [List.length_append]; have := m.taken_le; omega
+  · exact m.pipeEnded
+
+theorem Main.setAnswer {s : St} (m : Main s) (x : Answer) (h1 : s.head = .none → x ≠ .forward) (h2 : s.canStartBypass = false) :
+    Main { s with answer := x } := by
+  constructor
+  · exact m.put_le
+  · exact m.cons_le
+  · exact m.buf_eq
+  · exact m.prod_end
+  · exact m.nopipe
+  · intro h; exact ⟨(m.hnone h).1, (m.hnone h).2.1, h1 h⟩
+  · exact m.clone
+  · exact m.plain
+  · exact m.partEcho
+  · intro he; exact ⟨(m.ended he).clone, (m.ended he).plain, (m.ended he).part⟩
+  · intro (h : s.canStartBypass = true); rw [h2] at h; cases h
+  · exact m.sendV
+  · exact m.taken_le
+  · exact m.pipeEnded
+
+theorem Main.allocClone {s : St} (m : Main s) (hh : s.head = .none) (hb : s.canStartBypass = false) : Main { s with head := .virginClone } := by
+  have hn := m.hnone hh
+  have np := m.nopipe hn.1
+  constructor
+  · exact m.put_le
+  · exact m.cons_le
+  · exact m.buf_eq
+  · exact m.prod_end
+  · exact m.nopipe
+  · intro h; cases h
+  · intro _
+    refine ⟨?_, ?_, np.2.1⟩
+    · show s.out = s.v.take s.vSending.start
+      rw [np.1, hn.2.1]; rfl
+    · show s.vSending.start ≤ s.put
+      rw [hn.2.1]; exact Nat.zero_le _
+  · intro h; cases h
+  · intro h; cases h
+  · intro (he : s.outSt = .endedOk); rw [hn.1] at he; cases he
+  · intro (h : s.canStartBypass = true); rw [hb] at h; cases h
+  · intro _; exact Or.inl rfl
+  · exact m.taken_le
+  · exact m.pipeEnded
+
+theorem Main.openEchoPipe {s : St} (m : Main s) (hh : s.head = .virginClone) (z : Option Nat) :
+    Main { s with sending := .virgin, outSt := .isOpen, outSize := z } := by
+  constructor
+  · exact m.put_le
+  · exact m.cons_le
+  · exact m.buf_eq
+  · exact m.prod_end
+  · intro h; cases h
+  · intro (h : s.head = .none); rw [hh] at h; cases h
+  · exact m.clone
+  · exact m.plain
+  · exact m.partEcho
+  · intro h; cases h
+  · exact m.byp
+  · intro _; exact Or.inl hh
+  · exact m.taken_le
+  · intro h; rcases h with h | h <;> cases h
+
+theorem Main.allocAdapted {s : St} (m : Main s) (hh : s.head = .none) : Main { s with head := .adapted } := by
+  have hn := m.hnone hh
+  have np := m.nopipe hn.1
+  constructor
+  · exact m.put_le
+  · exact m.cons_le
+  · exact m.buf_eq
+  · exact m.prod_end
+  · exact m.nopipe
+  · intro h; cases h
+  · intro h; cases h
+  · intro _ _
+    refine ⟨?_, hn.2.1⟩
+    show s.out ++ s.pending = s.recv
+    rw [np.1, np.2.2.1, np.2.2.2]; rfl
+  · intro _ pos (hp : s.uob = some pos); rw [np.2.1] at hp; cases hp
+  · intro (he : s.outSt = .endedOk); rw [hn.1] at he; cases he
+  · intro h; have b := m.byp h; exact ⟨b.1, b.2.1, b.2.2.1, by intro h; cases h⟩
+  · intro (h : s.sending = .virgin)
+    rcases m.sendV h with h1 | h1
+    · rw [hh] at h1; cases h1
+    · rw [hh] at h1; cases h1.1
+  · exact m.taken_le
+  · exact m.pipeEnded
+
+theorem Main.dropHead {s : St} (m : Main s) (hh : s.head = .adapted) (ho : s.outSt = .noPipe) (ha : s.answer = .none) :
+    Main { s with head := .none, sending := .undecided } := by
+  have np := m.nopipe ho
+  constructor
+  · exact m.put_le
+  · exact m.cons_le
+  · exact m.buf_eq
+  · exact m.prod_end
+  · exact m.nopipe
+  · intro _; exact ⟨ho, (m.plain hh np.2.1).2, by rw [ha]; intro h; cases h⟩
+  · intro h; cases h
+  · intro h; cases h
+  · intro h; cases h
+  · intro (he : s.outSt = .endedOk); rw [ho] at he; cases he
+  · intro h; have b := m.byp h; exact ⟨b.1, b.2.1, b.2.2.1, by intro h; cases h⟩
+  · intro h; cases h
+  · exact m.taken_le
+  · exact m.pipeEnded
+
+/-- prepPartialBodyEchoing(pos): the adapted prefix is complete, the virgin suffix starts at pos -/
+theorem Main.startPart {s : St} (m : Main s) (pos : Nat) (z : Option Nat) (hh : s.head = .adapted) (hu : s.uob = none) (hp : s.pending = [])
+    (hl : s.lastSeen = some (some pos)) (hle : pos ≤ s.put) (ho : s.outSt = .isOpen) :
+    Main { s with vSending := { s.vSending with start := s.vSending.start + pos }, sending := .virgin, uob := some pos, outSize := z } := by
+  have pl := m.plain hh hu
+  constructor
+  · exact m.put_le
+  · exact m.cons_le
+  · exact m.buf_eq
+  · exact m.prod_end
+  · intro (h : s.outSt = .noPipe); rw [ho] at h; cases h
+  · intro (h : s.head = .none); rw [hh] at h; cases h
+  · intro (h : s.head = .virginClone); rw [hh] at h; cases h
+  · intro _ h; cases h
+  · intro _ p (hq : some pos = some p)
+    have e : pos = p := by injection hq
+    subst e
+    refine ⟨hp, ?_, ?_, ?_, hl⟩
+    · show pos ≤ s.vSending.start + pos; omega
+    · show s.vSending.start + pos ≤ s.put; rw [pl.2]; omega
+    · show s.out = s.recv ++ (s.v.drop pos).take (s.vSending.start + pos - pos)
+      have : s.vSending.start + pos - pos = 0 := by rw [pl.2]; omega
+      rw [this, List.take_zero, List.append_nil, ← pl.1, hp, List.append_nil]
+  · intro (he : s.outSt = .endedOk); rw [ho] at he; cases he
+  · exact m.byp
+  · intro _; exact Or.inr ⟨hh, rfl⟩
+  · exact m.taken_le
+  · exact m.pipeEnded
+
+theorem Main.recvBody {s : St} (m : Main s) (bs : Bytes) (hh : s.head = .adapted) (hu : s.uob = none) (ho : s.outSt ≠ .noPipe) (hl : s.lastSeen = none) :
+    Main { s with recv := s.recv ++ bs, pending := s.pending ++ bs } := by
+  constructor
+  · exact m.put_le
+  · exact m.cons_le
+  · exact m.buf_eq
+  · exact m.prod_end
+  · intro h; exact absurd h ho
+  · intro (h : s.head = .none); rw [hh] at h; cases h
+  · intro (h : s.head = .virginClone); rw [hh] at h; cases h
+  · intro _ _
+    have pl := m.plain hh hu
+    refine ⟨?_, pl.2⟩
+    show s.out ++ (s.pending ++ bs) = s.recv ++ bs
+    rw [← List.append_assoc, pl.1]
+  · intro _ pos (hp : s.uob = some pos); rw [hu] at hp; cases hp
+  · intro he
+    have e := (m.ended he).plain hh hu
+    rw [hl] at e; cases e.2
+  · exact m.byp
+  · exact m.sendV
+  · exact m.taken_le
+  · exact m.pipeEnded
+
+theorem Main.recvLast {s : St} (m : Main s) (u : Option Nat) (hu : s.uob = none) : Main { s with lastSeen := some u } := by
+  constructor
+  · exact m.put_le
+  · exact m.cons_le
+  · exact m.buf_eq
+  · exact m.prod_end
+  · exact m.nopipe
+  · exact m.hnone
+  · exact m.clone
+  · exact m.plain
+  · intro _ pos (hp : s.uob = some pos); rw [hu] at hp; cases hp
+  · intro he
+    have e := m.ended he
+    exact ⟨e.clone, fun h1 h2 => ⟨(e.plain h1 h2).1, rfl⟩, e.part⟩
+  · exact m.byp
+  · exact m.sendV
+  · exact m.taken_le
+  · exact m.pipeEnded
+
+theorem Main.takeOut {s : St} (m : Main s) (n : Nat) : Main { s with outTaken := min s.out.length (s.outTaken + n) } := by
+  constructor
+  · exact m.put_le
+  · exact m.cons_le
+  · exact m.buf_eq
+  · exact m.prod_end
+  · exact m.nopipe
+  · exact m.hnone
+  · exact m.clone
+  · exact m.plain
+  · exact m.partEcho
+  · intro he; exact ⟨(m.ended he).clone, (m.ended he).plain, (m.ended he).part⟩
+  · exact m.byp
+  · exact m.sendV
+  · show min s.out.length (s.outTaken + n) ≤ s.out.length; omega
+  · exact m.pipeEnded
+
+theorem Main.setParsing {s : St} (m : Main s) (p : Parsing) : Main { s with parsing := p } := by
+  constructor
+  · exact m.put_le
+  · exact m.cons_le
+  · exact m.buf_eq
+  · exact m.prod_end
+  · exact m.nopipe
+  · exact m.hnone
+  · exact m.clone
+  · exact m.plain
+  · exact m.partEcho
+  · intro he; exact ⟨(m.ended he).clone, (m.ended he).plain, (m.ended he).part⟩
+  · exact m.byp
+  · exact m.sendV
+  · exact m.taken_le
+  · exact m.pipeEnded
+
+theorem Main.openAdaptedPipe {s : St} (m : Main s) (hh : s.head = .adapted) (ho : s.outSt = .noPipe) (p : Parsing) :
+    Main { s with outSt := .isOpen, parsing := p } := by
+  have np := m.nopipe ho
+  constructor
+  · exact m.put_le
+  · exact m.cons_le
+  · exact m.buf_eq
+  · exact m.prod_end
+  · intro h; cases h
+  · intro (h : s.head = .none); rw [hh] at h; cases h
+  · exact m.clone
+  · exact m.plain
+  · exact m.partEcho
+  · intro h; cases h
+  · exact m.byp
+  · exact m.sendV
+  · exact m.taken_le
+  · intro h; rcases h with h | h <;> cases h
 
 end SquidModel.Icap
